@@ -558,7 +558,37 @@ def gen_cases(rng, tier):
                       "X": [rng.randint(-3, 6) for _ in range(n)] if rng.random() < 0.4 else None,
                       "strategy": rng.choice(["refit", "update"]), "metric": rng.choice(METRICS),
                       "fc": rand_forecaster(rng, minlen), "return_data": rng.random() < 0.35})
+    if tier == "thorough":
+        cases += exhaustive_cases()
     return cases
+
+
+def exhaustive_cases():
+    """Every window configuration of a small scope, NaiveForecaster(last), asymmetric scorer."""
+    import itertools
+    out = []
+    fhs = [list(c) for k in range(1, 4) for c in itertools.combinations(range(1, 4), k)]
+    for n in range(2, 9):
+        y = [(3 * i * i + 2 * i) % 7 + 1 for i in range(n)]
+        for wl in range(1, 4):
+            for step in range(1, 4):
+                for fh in fhs:
+                    for t in ("sliding", "expanding"):
+                        for strat in ("refit", "update"):
+                            out.append({"kind": "eval", "splitter": {
+                                "type": t, "fh": fh, "wl": wl, "step": step, "iw": None,
+                                "sww": True}, "off": 0, "y": y, "X": None, "strategy": strat,
+                                "metric": "asym", "fc": {"type": "naive", "strategy": "last",
+                                                         "wl": None}, "return_data": False})
+    return out
+
+
+def extra_coverage(cases, results, tier):
+    return {"exhaustive": False,
+            "exhaustive_scope": ("n in 2..8, window 1..3, step 1..3, fh subset of {1,2,3}, sliding "
+                                 "and expanding, both strategies, NaiveForecaster(last), asymmetric "
+                                 "scorer: %d cases, all enumerated" % len(exhaustive_cases()))
+            if tier == "thorough" else "thorough only"}
 
 
 def shrink(case):
